@@ -86,7 +86,10 @@ def rnd_rsel(r, n, norepeat=False):
             r.shuffle(q)
             q = q[:r.randint(0, n)]
             return ["list", [i if r.random() < 0.6 else i - n for i in q]]
-        return ["list", [r.randint(-n, n - 1) for _ in range(r.randint(0, 6))]]
+        q = [r.randint(-n, n - 1) for _ in range(r.randint(0, 6))]
+        if q and r.random() < 0.12:
+            q[r.randrange(len(q))] = r.choice([n, n + 1, -n - 1, n + 5])          # an entry that does not exist: must be refused
+        return ["list", q]
     if k == "mask":
         return ["mask", [r.randint(0, 1) for _ in range(n)]]
     return ["all"]
@@ -159,6 +162,7 @@ def gen_c01(r):
         reader = [rk]
     o = opts_for(r, "readback")
     o["lkind"] = r.choice(["list", "array", "tuple"])
+    o["layout"] = r.choice(["C", "F", "T", "strided"])
     return ["readback", ctor, reader], o, True
 
 
@@ -341,11 +345,13 @@ def gen_c08(r):
     dt = r.choice(["i8", "i4", "u1", "b1", "f8", "i2"])
     if k == "concat":
         axis = r.choice([0, 0, -1, 1])
+        mixed = r.random() < 0.35
+        dts = [r.choice(["i8", "f8", "u1", "i2", "b1"]) if mixed else dt for _ in range(4)]
         if axis == 0:
-            arrs = [rnd_arr(r, dt, rnd_lens(r, 4, 4)) for _ in range(r.randint(1, 4))]
+            arrs = [rnd_arr(r, dts[i], rnd_lens(r, 4, 4), finite_only=True) for i in range(r.randint(1, 4))]
         else:
             n = r.randint(1, 4)
-            arrs = [rnd_arr(r, dt, [r.choice([0, 0, 1, 2, 3]) for _ in range(n)]) for _ in range(r.randint(1, 3))]
+            arrs = [rnd_arr(r, dts[i], [r.choice([0, 0, 1, 2, 3]) for _ in range(n)], finite_only=True) for i in range(r.randint(1, 3))]
         return ["concat", arrs, axis], opts_for(r, "concat"), False
     lens = rnd_lens(r, 6, 5)
     arr = rnd_arr(r, dt, lens, finite_only=True)
